@@ -26,7 +26,12 @@ RULE = ('generated source directories converted by the real EphysAlfCreator: (a)
         'curated directories in which a cluster stems from 2..3 arbitrary templates (any ids, dominant template anywhere in '
         'the group, count ties) whose channel neighbourhoods differ (13..16 channels on one shank, or two shanks): the loaded '
         'cluster waveforms are judged against PV.C08.Model.load composed with the exporter model (clause 28). '
-        'Corpus first (the stage-5 forced instances, then the three-probe maps [2,0,1] [1,3,0,2] [0,1], narrow probes, 12/13/14 channels), then axis '
+        '(e) stage 6: curated single directories with MORE THAN 256 templates (257..330; products template id x number of '
+        'clusters beyond 2^16) whose spike_templates file is uint16 / int32 / uint32 / int64, curated by splits, renumbering and '
+        'two-template merges; histories: 1..2 earlier conversions in the same process on the same loaded model - on the SAME '
+        'EphysAlfCreator object or on one of their own - with other unit factors / labels / force, each into a fresh directory, '
+        'before the judged conversion (single, merged and merge-case datasets). '
+        'Corpus first (the stage-6 and stage-5 forced instances, then the three-probe maps [2,0,1] [1,3,0,2] [0,1], narrow probes, 12/13/14 channels), then axis '
         'products, then seeded random. Non-trivial = the conversion ran and wrote every value file; distinct = distinct '
         'abstract input.')
 EXHAUSTIVE = {'quick': False, 'thorough': False}
@@ -145,7 +150,7 @@ def generate(tier, rng):
     for _ in range({'quick': 24, 'thorough': 600, 'search': 60}[tier]):
         cases.append(_case(X.gen_merge_case(rng)))
     # stage 6: id magnitudes (more than 256 templates, every id dtype) and histories of conversions on one model / creator
-    for _ in range({'quick': 6, 'thorough': 150, 'search': 12}[tier]):
+    for _ in range({'quick': 6, 'thorough': 100, 'search': 12}[tier]):
         cases.append(_case(X.gen_many(rng)))
     for _ in range({'quick': 10, 'thorough': 300, 'search': 20}[tier]):
         cases.append(_case(X.with_history(rng, X.gen_single(rng))))
